@@ -15,7 +15,8 @@ Python semantics: `int` unbounded (`hsn`, `maio` are `Int`: they come from
 comes from a TRXD header and is a `Nat`), `%` is floor-mod, `^`/`&` are the
 two's-complement operations on unbounded ints, `list[i]` accepts
 `-len ≤ i < len` and raises `IndexError` otherwise, `x % 0` raises
-`ZeroDivisionError`, `__init__` raises `ValueError` for an empty MA.
+`ZeroDivisionError`, `__init__` raises `ValueError` for an empty MA and for an
+HSN outside `range(64)`.
 Operator precedence as parsed by `ast`:
   `rn_idx = (self.hsn ^ (t1 & 63)) + t3`
   `s = mp if mp < ma_len else (mp + (t3 & self._pnm)) % ma_len`     (after the F1 fix)
@@ -32,6 +33,13 @@ import OsmoVerif.Model.GsmTime
 
 namespace OsmoVerif.Hopping
 open OsmoVerif.GsmTime
+
+/-- outcomes (`Except`) can be compared: needed to evaluate closed instances by `decide` -/
+instance instDecEqExcept {ε α : Type} [DecidableEq ε] [DecidableEq α] : DecidableEq (Except ε α)
+  | .ok a, .ok b => if h : a = b then isTrue (by rw [h]) else isFalse (by intro e; cases e; exact h rfl)
+  | .error a, .error b => if h : a = b then isTrue (by rw [h]) else isFalse (by intro e; cases e; exact h rfl)
+  | .ok _, .error _ => isFalse (by intro e; cases e)
+  | .error _, .ok _ => isFalse (by intro e; cases e)
 
 /-! ## Python side -/
 
@@ -75,7 +83,8 @@ structure HoppingParams (α : Type) where
 def pyInit {α : Type} (hsn maio : Int) (ma : List α) : Except PyExc (HoppingParams α) :=
   let maLen := ma.length
   if maLen = 0 then .error .ValueError
-  else if hsn < 0 ∨ hsn ≥ 64 then .error .ValueError     -- `if hsn not in range(64)`
+  -- if hsn not in range(64): raise ValueError
+  else if ¬ (0 ≤ hsn ∧ hsn < 64) then .error .ValueError
   else .ok {
     hsn := hsn, maio := maio, ma := ma
     pnm := (maLen >>> 0) ||| (maLen >>> 1) ||| (maLen >>> 2) ||| (maLen >>> 3)
